@@ -25,6 +25,21 @@ class _Boom(Exception):
     pass
 
 
+def _make_exc(kind, text):
+    # what an action or a link driver may raise: any exception type, with no, one or several arguments
+    if kind == 'type':
+        return TypeError(text)
+    if kind == 'noargs':
+        return _Boom()
+    if kind == 'oserror':
+        return OSError(5, text)
+    if kind == 'assert':
+        return AssertionError()
+    if kind == 'key':
+        return KeyError(text, 7)
+    return _Boom(text)
+
+
 def _container(uris, kind):
     # any iterable of URIs is a swarm; its iteration order is the order of the swarm
     if kind == 'tuple':
@@ -43,6 +58,7 @@ def run_swarm(case):
     out = Outcome()
     uris = case['uris']
     log = []
+    open_errors = {}
 
     with Session(case.get('schedule'), horizon=50.0) as s:
         class Member:
@@ -60,7 +76,8 @@ def run_swarm(case):
                     s.yield_point()
                 if self.uri in case['open_fail']:
                     log.append(('open-fail', self.uri))
-                    raise _Boom('open %s' % self.uri)
+                    open_errors[self.uri] = _make_exc(case.get('exc', 'boom'), 'open %s' % self.uri)
+                    raise open_errors[self.uri]
                 log.append(('open-end', self.uri))
 
             def close_link(self):
@@ -94,8 +111,8 @@ def run_swarm(case):
                 if opened_ok:
                     out.fail('swarm:open-failure-not-raised', desc)
                 else:
-                    cause = open_exc if isinstance(open_exc, _Boom) else open_exc.__cause__
-                    if not isinstance(cause, _Boom) or str(cause) not in ['open %s' % u for u in fails]:
+                    cause = open_exc if any(open_exc is e_ for e_ in open_errors.values()) else open_exc.__cause__
+                    if not any(cause is e_ for e_ in open_errors.values()):
                         out.fail('swarm:open-failure-cause', '%s: raised %r cause %r' % (desc, open_exc, cause))
                 for u, m in members.items():
                     if m.closed < 1:
@@ -174,7 +191,7 @@ def run_swarm(case):
                         s.yield_point()
                     running.discard(scf.uri)
                     if scf.uri in call['fail']:
-                        e = _Boom('call %d member %s' % (ci, scf.uri))
+                        e = _make_exc(call.get('exc', 'boom'), 'call %d member %s' % (ci, scf.uri))
                         raised_here[scf.uri] = e
                         events.append(('raise', scf.uri, None))
                         raise e
@@ -253,6 +270,9 @@ def run_swarm(case):
 _sched = st.fixed_dictionaries({'prefix': st.lists(st.integers(0, 3), max_size=30), 'seed': st.integers(0, 10 ** 6), 'rate': st.sampled_from([0.0, 0.1, 0.3, 0.6])})
 
 
+_exc = st.sampled_from(['boom', 'boom', 'type', 'noargs', 'oserror', 'assert', 'key'])
+
+
 @st.composite
 def swarm_case(draw):
     n = draw(st.integers(0, 8))
@@ -265,8 +285,8 @@ def swarm_case(draw):
             calls.append({'mode': draw(st.sampled_from(['sequential', 'parallel', 'parallel_safe', 'parallel_safe'])),
                           'args': draw(st.sampled_from(['none', 'empty', 'fresh', 'fresh', 'reuse', 'shared', 'missing'])), 'nargs': draw(st.integers(0, 3)),
                           'fail': draw(st.one_of(st.just([]), st.lists(st.sampled_from(uris), unique=True, max_size=3))) if uris else [],
-                          'yields': draw(st.integers(0, 3))})
-    return {'uris': uris, 'open_fail': open_fail, 'open_yields': draw(st.integers(0, 2)), 'calls': calls, 'schedule': draw(_sched),
+                          'yields': draw(st.integers(0, 3)), 'exc': draw(_exc)})
+    return {'uris': uris, 'open_fail': open_fail, 'open_yields': draw(st.integers(0, 2)), 'calls': calls, 'schedule': draw(_sched), 'exc': draw(_exc),
             'container': draw(st.sampled_from(['list', 'list', 'tuple', 'dict-keys', 'dict', 'generator']))}
 
 
